@@ -6,8 +6,26 @@ import (
 	"io"
 	"os"
 	"os/exec"
+	"strconv"
 	"strings"
+	"time"
 )
+
+// askDeadline bounds one Ask/AskAll: a driver that neither answers nor exits within it is killed,
+// so the pending read fails instead of hanging the harness (VERIF_DRIVER_TIMEOUT, seconds).
+func askDeadline() time.Duration {
+	if v, err := strconv.Atoi(os.Getenv("VERIF_DRIVER_TIMEOUT")); err == nil && v > 0 {
+		return time.Duration(v) * time.Second
+	}
+	return 30 * time.Minute
+}
+
+func (d *Driver) watchdog() *time.Timer {
+	return time.AfterFunc(askDeadline(), func() {
+		fmt.Fprintln(os.Stderr, "driver: no answer within the deadline, killing it")
+		_ = d.cmd.Process.Kill()
+	})
+}
 
 // Driver is a running Lean model driver: one request line in, one response line out.
 type Driver struct {
@@ -41,6 +59,8 @@ func (d *Driver) Ask(line string) (string, error) {
 	if strings.ContainsRune(line, '\n') {
 		return "", fmt.Errorf("driver line contains newline")
 	}
+	wd := d.watchdog()
+	defer wd.Stop()
 	if _, err := io.WriteString(d.in, line+"\n"); err != nil {
 		return "", err
 	}
@@ -54,6 +74,8 @@ func (d *Driver) Ask(line string) (string, error) {
 // AskAll sends all lines first and then reads as many answers (faster for big scripts; the
 // writer runs concurrently so the pipes cannot deadlock).
 func (d *Driver) AskAll(lines []string) ([]string, error) {
+	wd := d.watchdog()
+	defer wd.Stop()
 	errc := make(chan error, 1)
 	go func() {
 		w := bufio.NewWriterSize(d.in, 1<<20)
